@@ -32,7 +32,7 @@ ASSUMPTIONS = ["chip/air model decisions M1, M3, M4, M8 (DESIGN.md section 3)",
 CLAUSES = {"rejects": "ValueError before anything reaches the radio", "loaded": "bytes uploaded to the TX FIFO",
            "delivered": "byte-for-byte, exactly once, in order, right pipe", "result": "premise: working link",
            "unaliased": "caller's buffer object is never modified"}
-PROBES = ["pid_duplicate_dropped", "send_on_dead_medium", "retargeted"]   # premise_broken_by_loss_pattern is rare by design
+PROBES = ["pid_duplicate_dropped", "send_on_dead_medium", "retargeted", "burst_payloads_refused", "turned_with_unread_payloads", "ack_payloads_armed", "healing_send_succeeded"]   # premise_broken_by_loss_pattern is rare by design
 SHRINK_KEYS = ("ops", "faults")
 CHUNK = 40
 
@@ -136,6 +136,37 @@ def make(i, base_seed, tier):
         for op in ops:
             op["ask_no_ack"] = False
         faults = common.drop_ordinals(stream(seed, "air"), 120, rng.choice([0.05, 0.15, 0.3]), max_run=4)
+    if not grid and not faults:
+        yr = stream(seed, "ext2")
+        k_ = yr.random()
+        if k_ < 0.12 and cfg["auto_ack"]:      # (with acknowledgements the link itself paces the sender when the peer's FIFO is full)
+            # streaming: bursts of write() calls faster than the radio drains its 3-level TX FIFO (what write() accepted must arrive)
+            for _ in range(yr.randint(1, 2)):
+                pos = yr.randint(0, len(ops))
+                n_b = yr.randint(4, 8)
+                ops.insert(pos, {"op": "burst", "bufs": [hx(common.rand_payload(yr, yr.randint(1, 32))) for _ in range(n_b)],
+                                 "types": [yr.choice(["bytes", "bytearray"]) for _ in range(n_b)], "ask_no_ack": False, "list": False})
+        elif k_ < 0.27 and cfg["dyn"] and cfg["auto_ack"] and any(o["op"] == "turn" for o in ops):
+            # ACK payloads: the receiver arms payloads for its acknowledgements; those still unused when it turns transmitter must
+            # not go out as ordinary payloads
+            cfg["ackpl"] = True
+            for op in ops:
+                if "ask_no_ack" in op:
+                    op["ask_no_ack"] = False
+            for pos in sorted(yr.sample(range(len(ops) + 1), min(len(ops) + 1, yr.randint(1, 4))), reverse=True):
+                ops.insert(pos, {"op": "load_ack", "bufs": [hx(common.rand_payload(yr, yr.randint(1, 32))) for _ in range(yr.randint(1, 3))]})
+        elif k_ < 0.42 and cfg["auto_ack"] and any(o["op"] == "turn" for o in ops):
+            # a receiver that turns transmitter with unread payloads in its RX FIFO: its send(send_only=True) calls - also with forced
+            # retries after a first cycle that met a dead medium - leave them alone
+            for op in ops:
+                if op["op"] == "turn" and yr.random() < 0.7:
+                    op["keep"] = True
+                elif op["op"] == "send" and not op["list"] and yr.random() < 0.6:
+                    op["ask_no_ack"] = False
+                    op["so"] = True
+                    op["fr"] = yr.choice([0, 1, 1, 2])
+                    if op["fr"] and yr.random() < 0.7:
+                        op["heal_ms"] = yr.choice([1, 5, 20, 35, 50])
     mode = "conc" if (tier == "thorough" and not grid and rng.random() < 0.4) else "seq"
     kr = stream(seed, "knobs")
     scn = {"seed": seed, "cfg": cfg, "ops": ops, "faults": faults, "mode": mode,
@@ -183,12 +214,17 @@ def _run(scn, cfg, w, res):
             tx.open_rx_pipe(1, unhx(cfg["rp1"])[:n_])
         tx.open_rx_pipe(cfg["rpipe"], rev_addr)
         tx.open_tx_pipe(fwd_addr)
+    if cfg.get("ackpl"):
+        tx.ack = True
+        rx.ack = True
     expected = []   # payloads that must come out of the peer, in order
     got = []        # (pipe, any, bytes)
+    kept = {}       # id(driver) -> expected entries left unread in its RX FIFO when it turned transmitter
     state = {"stop": False}
 
-    def drain_all(limit=None):
+    def drain_all(limit=None, drv=None):
         n = 0
+        rx = drv if drv is not None else cur_rx()
         while rx.available():
             p = rx.pipe
             ln = rx.any()
@@ -200,6 +236,9 @@ def _run(scn, cfg, w, res):
             if n > 64:
                 res.add("delivered", {"kind": "endless_rx"}, "available() stays True after 64 reads")
                 break
+
+    def cur_rx():
+        return rx
 
     rx_task = None
     if conc:
@@ -234,14 +273,68 @@ def _run(scn, cfg, w, res):
         if op["op"] == "turn":
             if conc or rev_addr is None:
                 continue
-            drain_all()
+            if op.get("keep") and not cfg.get("ackpl") and 0 < outstanding <= 3 and id(tx) not in kept:
+                # the application leaves what it has received so far in the FIFO for later
+                kept[id(rx)] = expected[-outstanding:]
+                del expected[-outstanding:]
+                sim.count("turned_with_unread_payloads")
+            else:
+                drain_all()
             outstanding = 0
+            if cfg.get("ackpl"):
+                tx.flush_rx()                # ACK payloads the old transmitter did not read: the application drops them
             sim.log("call", "T" if fwd else "R", "turn")
             tx.listen = True                 # old transmitter starts listening on its own pipe
             rx.listen = False                # old receiver becomes the transmitter
             rx.open_tx_pipe(rev_addr if fwd else fwd_addr)
             tx, rx, rt, rr = rx, tx, rr, rt
             fwd = not fwd
+            if id(rx) in kept:
+                back = kept.pop(id(rx))      # ... and finds them again, in front of whatever arrives next
+                expected.extend(back)
+                outstanding = len(back)
+            continue
+        if op["op"] == "load_ack":
+            if conc or not cfg.get("ackpl"):
+                continue
+            for b_ in op["bufs"]:
+                rx.load_ack(unhx(b_), cur_pipe if fwd else cfg["rpipe"])
+            sim.count("ack_payloads_armed", len(op["bufs"]))
+            continue
+        if op["op"] == "burst":
+            if conc or id(tx) in kept or not cfg["auto_ack"]:
+                continue
+            drain_all()
+            outstanding = 0
+            if stale:
+                tx.flush_tx()
+                stale = False
+            bufs = [_mk(b, t) for b, t in zip(op["bufs"], op["types"])]
+            if cfg["dyn"] is False:
+                pass
+            sim.log("call", "T", "burst", len(bufs))
+            accepted = []
+            for b_ in bufs:
+                try:
+                    if tx.write(b_):
+                        accepted.append(common.expected_payload(cfg, b_))
+                except ValueError:
+                    pass
+            for _ in range(40000):
+                tx.update()
+                drain_all()
+                if tx.fifo(True, True) and not rt.txing:
+                    break
+                if tx.irq_df:
+                    break
+            if tx.irq_df:
+                res.add("result", {"kind": "burst_max_rt"}, "a burst of write() calls on a working link ended in MAX_RT")
+                return
+            drain_all()
+            expected.extend((cur_pipe if fwd else cfg["rpipe"], e) for e in accepted)
+            sim.count("burst_payloads_accepted", len(accepted))
+            sim.count("burst_payloads_refused", len(bufs) - len(accepted))
+            res.nontrivial = True
             continue
         if op["op"] == "drain":
             if not conc:
@@ -271,8 +364,23 @@ def _run(scn, cfg, w, res):
         dead = bool(op.get("dead")) and not conc and fwd and cfg["auto_ack"]
         if op.get("dead") and not dead:
             continue
+        heal = None
+        kw = {}
+        if op["op"] == "send" and not dead and not conc:
+            if op.get("fr"):
+                kw["force_retry"] = op["fr"]
+            if op.get("so") or id(tx) in kept:
+                kw["send_only"] = True
+            if op.get("heal_ms") is not None and cfg["auto_ack"] and not op["ask_no_ack"] and not scn.get("faults"):
+                heal = op["heal_ms"]
+        if op["op"] == "write" and id(tx) in kept:
+            pass
         if dead:
             w.air.blackout = True
+        if heal is not None:
+            # the medium is dead when the call begins and heals a seeded while later (during the first cycle, or during a forced retry)
+            w.air.blackout = True
+            sim.after(heal * MS, setattr, w.air, "blackout", False)
         if stale and op["op"] == "write":
             # documented: a failed send() leaves its payload in the TX FIFO (for resend()); send() discards it by itself,
             # before a bare write() the application has to
@@ -280,7 +388,7 @@ def _run(scn, cfg, w, res):
         stale = dead
         try:
             if op["op"] == "send":
-                ret = tx.send(arg, ask_no_ack=op["ask_no_ack"])
+                ret = tx.send(arg, ask_no_ack=op["ask_no_ack"], **kw)
             else:
                 ret = tx.write(arg, ask_no_ack=op["ask_no_ack"])
                 if ret:
@@ -325,6 +433,14 @@ def _run(scn, cfg, w, res):
         for u in ups:
             if u[1] == 0xB0 and not op["ask_no_ack"]:
                 res.add("loaded", {"kind": "noack_command"}, "W_TX_PAYLOAD_NOACK used without ask_no_ack")
+        if heal is not None and not ret:
+            # every attempt (forced retries included) fell into the dead phase: nothing was delivered, nothing is owed
+            w.air.blackout = False
+            stale = True
+            sim.count("healing_send_failed")
+            continue
+        if heal is not None:
+            sim.count("healing_send_succeeded")
         if dead:
             # nothing was received by anybody: the payload is owed to nobody, and must never turn up later
             if ret:
@@ -360,6 +476,9 @@ def _run(scn, cfg, w, res):
         sim.join([rx_task], timeout=200 * MS)
     else:
         drain_all()
+        if id(tx) in kept:
+            expected.extend(kept.pop(id(tx)))
+            drain_all(drv=tx)
     want = [(pp, len(e), e) for (pp, e) in expected]
     if premise_broken:
         # the payload of the call that met the dead pattern may or may not have arrived (its ACKs were lost): everything before it
@@ -382,6 +501,9 @@ def _run(scn, cfg, w, res):
             kind = "wrong_bytes"
         res.add("delivered", {"kind": kind},
                 "peer read %r, expected %r" % ([(g[0], g[1], hx(g[2] or b"")) for g in got][:8], [(x[0], x[1], hx(x[2])) for x in want][:8]))
+    if cfg.get("ackpl"):
+        rt.rx_fifo.clear()
+        rr.rx_fifo.clear()
     if rr.rx_fifo:
         res.add("delivered", {"kind": "rx_fifo_not_empty"}, "%d payloads left in the peer's RX FIFO" % len(rr.rx_fifo))
     res.sample = {"cfg": {k: cfg[k] for k in ("channel", "rate", "crc", "aw", "pipe", "dyn", "static_len", "auto_ack")},
